@@ -62,3 +62,11 @@ Print Assumptions c04_alloc_bounded_refuted.
 Theorem c04_bencode_fuel_sufficient : forall bs k, bdecode bs <> BErr BFuel k.
 Proof. exact bdecode_never_out_of_fuel. Qed.
 Print Assumptions c04_bencode_fuel_sufficient.
+
+(* Nesting is bounded (fix df6a942; before it a megabyte of nested lists in an extension message
+   overflowed the recursive decoder's stack and killed the process): the bencoded payload of an
+   extension message is accepted only if its value nests at most 64 levels deep. *)
+Theorem c04_depth_limited : forall bs v r k,
+  bdecode_lim bs = BOk v r k -> bdecode bs = BOk v r k /\ vdepth v <= max_bencode_depth.
+Proof. exact bdecode_lim_ok. Qed.
+Print Assumptions c04_depth_limited.
